@@ -114,18 +114,25 @@ HistPg(id, c, to) ==
     IN [nm   |-> IF jm = 0 THEN None ELSE CcVal(Rec[jm].m),
         nl   |-> IF jl = 0 THEN None ELSE CcVal(Rec[jl].m),
         kind |-> IF jn = 0 THEN FALSE ELSE CcNum(Rec[jn].m) \in {100, 101},
+        km   |-> jm > 0 /\ CcNum(Rec[jm].m) = 101,
+        kl   |-> jl > 0 /\ CcNum(Rec[jl].m) = 100,
         c6   |-> IF j6 = 0 THEN None ELSE CcVal(Rec[j6].m),
         c6t  |-> IF j6 = 0 THEN 0 ELSE T(j6),
         c38  |-> IF j38 = 0 THEN None ELSE CcVal(Rec[j38].m),
         c38t |-> IF j38 = 0 THEN 0 ELSE T(j38),
+        \* the most recent controller-38 byte was paired at once (reported in a 14-bit value by its feed)
+        p38  |-> j38 > 0 /\ Has14(Rec[j38].out),
         \* the most recent controller-6 byte has already appeared in a data-entry report
         rep  |-> j6 > 0 /\ (Has14(Rec[j6].out) \/ \E k \in rel : k > j6 /\ HasEntry(Rec[k].out)),
         last |-> lastKind,
         \* the unpaired LSB has met a poll at or after its deadline
-        late38 |-> lastKind = "cc38" /\ LatePollAfter(j38),
+        late38 |-> lastKind = "cc38" /\ ~Has14(Rec[j38].out) /\ LatePollAfter(j38),
         \* a controller-6 byte fed with a complete number, not reported as 14-bit at once, still before its
         \* deadline (the next contributing message on the channel or the first poll after the timeout)
         owe  |-> /\ j6 > 0 /\ CompleteBefore(j6) /\ ~Has14(Rec[j6].out)
+                 \* (not demanded while the latest MSB and LSB bytes were of different kinds)
+                 /\ LET xm == MaxOr0({x \in F({99, 101}) : x < j6})  xl == MaxOr0({x \in F({98, 100}) : x < j6})
+                    IN (CcNum(Rec[xm].m) = 101) = (CcNum(Rec[xl].m) = 100)
                  /\ jc = j6 /\ ~LatePollAfter(j6)]
 
 (**************************** common monitors ******************************)
@@ -137,7 +144,7 @@ CommonViol(k, c, e) ==
     (IF e.al = 0 /\ ~e.pan THEN {} ELSE {<<"C18", IF e.pan THEN "panic" ELSE "alloc">>})
     \cup (IF \A x \in 1..Len(e.out) : ReportInRange(k, e.out[x]) THEN {} ELSE {<<"C04", "range">>})
     \cup (IF c = None
-          THEN (IF e.out = <<>> /\ e.eqp THEN {} ELSE {<<"C15", "system-message">>})
+          THEN (IF e.out = <<>> THEN {} ELSE {<<"C15", "system-message">>})
           ELSE (IF \A x \in 1..Len(e.out) : e.out[x][1] = c THEN {} ELSE {<<"C15", "channel">>}))
 
 (* round-trip / running-form groups; returns set of findings *)
@@ -201,8 +208,8 @@ FeedEv(e) ==
         gap == Has(e, "gap") /\ e.gap
         total == IF Has(e, "grp") /\ e.grp.i > 1 THEN i.acc \o e.out ELSE e.out
         mon == IF c = None
-               THEN (IF e.out = <<>> THEN {}     \* "every other input yields nothing"
-                     ELSE {<<CASE i.k = "cc14" -> "C08" [] i.k = "pn" -> "C11" [] OTHER -> "C14", "exact">>})
+               THEN (IF e.out = <<>> \/ i.k = "poll" THEN {}     \* C08 / C11: "every other input yields nothing"
+                     ELSE {<<IF i.k = "cc14" THEN "C08" ELSE "C11", "exact">>})
                ELSE CASE i.k = "cc14" ->
                            (IF e.out = Cc14Expected(gg, e.m) THEN {} ELSE {<<"C08", "exact">>})
                       [] i.k = "pn" ->
@@ -210,7 +217,8 @@ FeedEv(e) ==
                       [] i.k = "poll" ->
                            {<<IF x \in {"C13l", "C13p"} THEN "C13" ELSE "C14", x>> :
                                 x \in PollFeedViolations(gg, e.m, e.out, gap, i.now, i.to)}
-        c16 == IF c # None /\ NonContributing(i.k, e.m) /\ ~(e.out = <<>> /\ e.eqp)
+        \* C16: any message that cannot be part of the scanned construct (channel-less ones included)
+        c16 == IF (c = None \/ NonContributing(i.k, e.m)) /\ ~(e.out = <<>> /\ e.eqp)
                THEN {<<"C16", "transparent">>} ELSE {}
         ghostOK == (UseHistory /\ c # None) => gg = cs.g
         g2 == IF c = None THEN cs.g ELSE GhostFeed(i.k, cs.g, e.m, e.out, i.now)
@@ -316,6 +324,9 @@ EncEv(e) ==
         f == (IF e.pan = panics THEN {} ELSE {<<IF is14 THEN "C07" ELSE "C09", "ctor-panic">>})
              \cup (IF e.bytes = want THEN {} ELSE {<<IF is14 THEN "C07" ELSE "C09", "encode">>})
              \cup (IF is14 \/ panics \/ e.slots = PnEncode(msg, e.ord) THEN {} ELSE {<<"C09", "slots">>})
+             \* C07: the message reports back its channel, controller numbers (LSB = MSB + 32) and value
+             \cup (IF is14 /\ ~panics /\ ~e.pan /\ e.acc # <<msg[1], msg[2], msg[2] + 32, msg[3]>>
+                   THEN {<<"C07", "accessors">>} ELSE {})
              \cup (IF e.al = 0 THEN {} ELSE {<<"C18", "alloc-encode">>})
     IN /\ Emit(f)
        /\ UNCHANGED inst
